@@ -45,6 +45,10 @@ def run(prog, R):
     # who may change the capacity: only a function that asks the policy (wherever it lives: a growth helper shared by both readers is fine)
     for g in G:
         asks = bool(find_call(g, 'policy::BufPolicy::grow_to'))
+        if not asks and '{closure' in g.key:
+            # `policy.grow_to(cap).map(|new_size| buf_reader.reserve(new_size - cap))`: the closure runs on the policy's answer
+            par = [q for q in prog.bodies.values() if q.key == g.key.split('::{closure')[0] and q.promoted_of is None]
+            asks = any(find_call(q, 'policy::BufPolicy::grow_to') for q in par)
         # ... or asks it through a private function whose result reaches the reserve call (`let wanted = self.next_capacity(cur)?`)
         via = None
         if not asks:
@@ -69,7 +73,10 @@ def run(prog, R):
                 name = c.name
                 ok = name in ALLOWED_BUFREADER
                 if name == 'with_capacity':
-                    ok = 'Reader<' in b.local_tys[0]      # a constructor: returns a reader
+                    # a constructor: returns a reader (or a private struct that owns the new buffer) and is not handed an existing one to change
+                    ok = 'Reader<' in b.local_tys[0] or (b.local_tys[0].strip() != '()' and not any(
+                        ty_.startswith('&mut') and ('Reader<' in ty_ or 'BufReader<' in ty_) for ty_ in b.local_tys[1:b.arg_count + 1]) and
+                        not any(('Reader<' in ty_ or 'BufReader<' in ty_) for ty_ in b.local_tys[1:b.arg_count + 1]))
                 if not ok:
                     R.add('GROW-1', b, 'buffer-op:%s' % name, False, site(b, t.line),
                           'buffer operation %s is not in the analysed set (may change the capacity) [UNDECIDED]' % tp)
@@ -123,7 +130,8 @@ def run(prog, R):
                     ok = False
                     how = ''
                     if len(oks) == 1:
-                        src = roots_of(b, oks[0].args[0])
+                        # (`grow_to(cap).map(|n| reserve(n - cap)).ok_or(BufferLimit)`: map keeps None a None)
+                        src = roots_of(b, oks[0].args[0], through_calls=lambda c_: 0 if c_ and c_.path in ('std::option::Option::map', 'std::option::Option::inspect') else None)
                         ok = len(src) == 1 and src[0][0] == 'call' and src[0][1].callee.is_('policy::BufPolicy::grow_to')
                         how = 'the ok_or() alternative of the grow_to result'
                     if not ok:
@@ -148,9 +156,19 @@ def run(prog, R):
     for g in G:
         callers = [(b, blk, t) for b in prog.bodies.values() for blk, t in b.calls()
                    if prog.local_callee_body(t.callee) is g]
+        if not callers and '{closure' in g.key:
+            par = [q for q in prog.bodies.values() if q.key == g.key.split('::{closure')[0] and q.promoted_of is None]
+            callers = [(b, blk, t) for b in prog.bodies.values() for blk, t in b.calls() if prog.local_callee_body(t.callee) in par]
         if not callers:
-            R.add('GROW-4', g, 'callers', False, site(g, g.span['lo']), 'growth function has no caller')
-        if any(prog.local_callee_body(tt.callee) in C for _, tt in g.calls()):
+            R.add('GROW-4', g, 'callers', False, site(g, g.span['lo']), 'growth function has no caller', undecided='{closure' in g.key)
+        cg0 = prog.call_graph()
+
+        def reaches_c(pth, seen_=()):
+            if pth in seen_ or len(seen_) > 3:
+                return False
+            qb = prog.bodies.get(pth)
+            return qb is not None and (qb in C or any(reaches_c(q, seen_ + (pth,)) for q in cg0.get(pth, ())))
+        if g in C or any(prog.local_callee_body(tt.callee) is not None and reaches_c(prog.local_callee_body(tt.callee).path) for _, tt in g.calls()):
             # growth and compaction are decided in one function (the growth is not a function of its own): judge the reserve call there
             callers = [(g, blk, t) for blk, t in find_call(g, 'buffer_redux::BufReader::reserve')]
         for (b, blk, t) in callers:
@@ -178,6 +196,17 @@ def run(prog, R):
                     if len(zero) == 1 and len(other) == 1:
                         fr = roots_of(b, other[0], du)
                         names = [[f[1] for f in q[-1]] for q in fr if q[0] == 'arg' and q[1] == 1]
+                        # the record start handed in as a parameter (`make_space(policy, keep_from, may_shift)`): every caller passes the start field
+                        par = [q[1] for q in fr if q[0] == 'arg' and q[1] > 1 and not q[-1] and b.local_tys[q[1]].strip() == 'usize']
+                        if par and len(par) == len(fr):
+                            passed = []
+                            for cb2 in prog.bodies.values():
+                                for _, t2 in cb2.calls():
+                                    if prog.local_callee_body(t2.callee) is b and par[0] - 1 < len(t2.args) and not t2.args[par[0] - 1].is_const:
+                                        rs2 = roots_of(cb2, t2.args[par[0] - 1])
+                                        passed.append(bool(rs2) and all(r2[0] == 'arg' and r2[1] == 1 and [f[1] for f in r2[-1]][:1] == ['buf_pos'] and [f[1] for f in r2[-1]][-1] in ('start', '0') for r2 in rs2))
+                            if passed and all(passed):
+                                names = [['buf_pos', 'start']]
                         if names and all(n and n[0] == 'buf_pos' and n[-1] in ('start', '0') for n in names):
                             op_ = r[1].rv.j['op']
                             zero_first = ops[0].const_int() == 0
@@ -211,12 +240,43 @@ def run(prog, R):
                     seen.add(s_)
                     st.append(s_)
             comp = [x for x, tt in b.calls() if prog.local_callee_body(tt.callee) in C]
+            if b in C:
+                comp += [x for x, tt in find_call(b, 'std::io::BufRead::consume')]      # the function compacts by itself
             ok = blk not in seen and kinds == {'flag', 'start==0'} and bool(comp) and any(c in seen for c in comp)
             # the guard itself is right but the compaction on the other branch is made by a helper this rule does not know
             # as a compaction function: not judged
             helper_other = blk not in seen and kinds == {'flag', 'start==0'} and not (bool(comp) and any(c in seen for c in comp)) and any(
                 prog.local_callee_body(tt.callee) is not None and x in seen for x, tt in b.calls() if prog.local_callee_body(tt.callee) is not g)
             path_note = ''
+            if not ok and blk in seen:
+                # the growth depends on the boolean answer of a private function that compacts (`if !flag || !self.make_room() { grow }`
+                # with make_room() returning false when the record already starts at offset 0): the second guard lives there
+                cgr = prog.call_graph()
+                def reaches_compaction(pth, seen_=()):
+                    if pth in seen_:
+                        return False
+                    qb = prog.bodies.get(pth)
+                    return qb is not None and (qb in C or any(reaches_compaction(q, seen_ + (pth,)) for q in cgr.get(pth, ())))
+                from rules_view import controlling_switches
+                for a_ in controlling_switches(b, blk):
+                    for r_ in roots_of(b, b.blocks[a_].term.discr, du):
+                        cb_ = prog.local_callee_body(r_[1].callee) if r_[0] == 'call' else None
+                        if cb_ is not None and cb_.local_tys[0] == 'bool' and reaches_compaction(cb_.path):
+                            helper_other = True
+                            path_note = ' - the growth also depends on the answer of %s, which compacts: not judged' % cb_.key
+            if not ok and kinds == {'flag'}:
+                # the only guard is a bool parameter - which a caller computes (`let shift = make_room && start != 0; self.refill(shift)`):
+                # what it stands for is decided there, not here
+                flags_here = [l for l in range(1, b.arg_count + 1) if b.local_tys[l] == 'bool']
+                for cb2 in prog.bodies.values():
+                    for _, t2 in cb2.calls():
+                        if prog.local_callee_body(t2.callee) is b:
+                            for l in flags_here:
+                                if l - 1 < len(t2.args) and not t2.args[l - 1].is_const:
+                                    rs2 = roots_of(cb2, t2.args[l - 1])
+                                    if any(r2[0] in ('bin', 'un', 'call', 'other') for r2 in rs2):
+                                        helper_other = True
+                                        path_note = ' - the flag is computed by the caller %s: not judged' % cb2.key
             if not ok and blk in seen and bool(comp):
                 # the guard may be a computed boolean (`let can_move = flag && start != 0; if can_move {compact} else {grow}`):
                 # decide per path - every path that reaches the growth call has taken "flag false" or "record start == 0"
@@ -291,8 +351,10 @@ def run(prog, R):
                     continue
                 rs = roots_of(b, a, du)
                 consts = [r for r in rs if r[0] == 'const']
+                # a flag that is computed (`is_new = is_new && have == 0`) instead of being set from literals: another formulation, not judged
+                computed_flag = any(r[0] in ('bin', 'un', 'call') for r in rs)
                 R.add('GROW-5', b, 'flag-roots-are-constants', len(consts) == len(rs) and any(r[1].const_int() == 1 for r in consts),
-                      site(b, t.line), 'flag <- %s' % [r[1].pretty() if r[0] == 'const' else r[0] for r in rs])
+                      site(b, t.line), 'flag <- %s' % [r[1].pretty() if r[0] == 'const' else r[0] for r in rs], undecided=computed_flag)
                 # stores of false into the flag local(s)
                 flag_locals = set()
                 if not a.is_const:
@@ -321,7 +383,7 @@ def run(prog, R):
                                             # and the None edge does not reach the store without passing some_t
                                             guarded = True
                             R.add('GROW-5', b, 'compaction-forbidden-only-for-exact-count', guarded, site(b, d[3].line),
-                                  'store of false into the flag is dominated by the Some(n) arm of n_records: %s' % guarded)
+                                  'store of false into the flag is dominated by the Some(n) arm of n_records: %s' % guarded, undecided=(not guarded) and computed_flag)
     R.floor('GROW-5', 6)
 
     # ---------------- GROW-6
